@@ -516,9 +516,11 @@ theorem processLine_ok (cfg : Px.Parser.Cfg) (p p' : Parser) (raw rest : Bytes) 
       split at hp
       · split at hp
         · cases hp
-        · cases hp
-          simp only [setLineAttributes]
-          split <;> exact h
+        · split at hp
+          · cases hp
+          · cases hp
+            simp only [setLineAttributes]
+            split <;> exact h
       · cases hp
     | response =>
       simp only [hty] at hp
